@@ -14,10 +14,18 @@ theorem det_contains_perm (regs regs' : List String) (h : regs.Perm regs') (s : 
   rw [Bool.eq_iff_iff, List.contains_iff_mem, List.contains_iff_mem]
   exact h.mem_iff.symm
 
+theorem det_isRegName_perm (regs regs' : List String) (h : regs.Perm regs') (s : String) :
+    isRegName regs' s = isRegName regs s := by
+  unfold isRegName
+  rw [Bool.eq_iff_iff, List.any_eq_true, List.any_eq_true]
+  constructor
+  · rintro ⟨r, hr, hp⟩; exact ⟨r, h.mem_iff.mpr hr, hp⟩
+  · rintro ⟨r, hr, hp⟩; exact ⟨r, h.mem_iff.mp hr, hp⟩
+
 theorem det_hasReg_perm (regs regs' : List String) (h : regs.Perm regs') (e : E) :
     hasReg regs' e = hasReg regs e := by
   unfold hasReg
-  have : regs'.contains = regs.contains := funext (det_contains_perm regs regs' h)
+  have : isRegName regs' = isRegName regs := funext (det_isRegName_perm regs regs' h)
   rw [this]
 
 theorem det_acceptIdx_perm (regs regs' : List String) (h : regs.Perm regs') (gz : Int × Int) (id : String)
@@ -94,7 +102,7 @@ theorem det_selectVariant_perm (regs regs' : List String) (h : regs.Perm regs') 
 theorem det_lookup_perm (L : Labels) (regs regs' : List String) (h : regs.Perm regs') (sc : Scope)
     (name : String) : L.lookup regs' sc name = L.lookup regs sc name := by
   unfold Labels.lookup
-  simp only [det_contains_perm regs regs' h]
+  simp only [det_isRegName_perm regs regs' h]
 
 /-- `locate` only depends on the directory collection up to permutation (no `Nodup` needed: with
     two or more hits both sides are the "found multiple times" error whatever the order) -/
